@@ -762,5 +762,3 @@ fn main() {
         }
     }
 }
-    }
-}
